@@ -75,7 +75,8 @@ Inductive qreq :=
 (* ---------- the container's state ---------- *)
 Inductive phase :=
 | Idle
-| Rendering (width height : Z) (rows : list item) (nrows popcount : Z) (pushes : list (Z * bool)).
+| Rendering (width height : Z) (rows : list item) (nrows popcount : Z) (pushes : list (Z * bool))
+| Failed.     (* flush is returning a frame error to serve *)
 
 Record cst := mkC {
   bars : list (Z * brec);   (* every bar ever added, by serial *)
@@ -87,10 +88,10 @@ Record cst := mkC {
   popped : list Z;   (* popped, not yet received by flush (oldest first) *)
   fifo : list qreq;   (* sent by the container, not yet received by the heap manager *)
   queue : list (Z * Z);   (* queueBars: predecessor -> successor *)
-  pop_prio : Z;
-  id_count : Z;
-  pop_mode : bool;
-  auto_mode : bool;
+  pop_prio : Z;   (* next pop priority *)
+  id_count : Z;   (* bars created so far *)
+  pop_mode : bool;   (* PopCompletedMode *)
+  auto_mode : bool;   (* auto refresh *)
   ph : phase;   (* what the container goroutine is doing *)
   cwbuf : list item;   (* buffer of the writer in use *)
   delayed : bool;   (* render delay pending: the writer in use discards *)
@@ -101,45 +102,51 @@ Record cst := mkC {
   done_seen : bool;   (* container goroutine saw done *)
   ended : bool;   (* heap manager got the end request *)
   errored : bool;   (* a render error is latched *)
+  ct_exited : bool;   (* the container goroutine has returned *)
   cycle_pops : list (Z * Z);   (* GHOST: (bar, priority) popped in the current/last ordered iteration, oldest first *)
   cycle_flushed : list Z;   (* GHOST: bars flushed in the current/last cycle, oldest first *)
   iter_heap : list Z;   (* GHOST: heap when the ordered iteration began *)
   iter_dirty : bool;   (* GHOST: heap order was broken when the ordered iteration began *)
-  retired : list Z   (* GHOST: bars that left the display for good *)
+  retired : list Z;   (* GHOST: bars that left the display for good *)
+  wlog : list item;   (* GHOST: text lines accepted by write closures while output was not discarded, in order *)
+  cycle_err : bool   (* a frame error was seen in the current cycle: the remaining bars are pushed back untouched *)
 }.
 
-Definition cs_bars (s : cst) v : cst := mkC v (heap s) (hsync s) (hlen s) (hdirty s) (iterating s) (popped s) (fifo s) (queue s) (pop_prio s) (id_count s) (pop_mode s) (auto_mode s) (ph s) (cwbuf s) (delayed s) (pend_writes s) (pend_fix s) (outframes s) (cancelled s) (done_seen s) (ended s) (errored s) (cycle_pops s) (cycle_flushed s) (iter_heap s) (iter_dirty s) (retired s).
-Definition cs_heap (s : cst) v : cst := mkC (bars s) v (hsync s) (hlen s) (hdirty s) (iterating s) (popped s) (fifo s) (queue s) (pop_prio s) (id_count s) (pop_mode s) (auto_mode s) (ph s) (cwbuf s) (delayed s) (pend_writes s) (pend_fix s) (outframes s) (cancelled s) (done_seen s) (ended s) (errored s) (cycle_pops s) (cycle_flushed s) (iter_heap s) (iter_dirty s) (retired s).
-Definition cs_hsync (s : cst) v : cst := mkC (bars s) (heap s) v (hlen s) (hdirty s) (iterating s) (popped s) (fifo s) (queue s) (pop_prio s) (id_count s) (pop_mode s) (auto_mode s) (ph s) (cwbuf s) (delayed s) (pend_writes s) (pend_fix s) (outframes s) (cancelled s) (done_seen s) (ended s) (errored s) (cycle_pops s) (cycle_flushed s) (iter_heap s) (iter_dirty s) (retired s).
-Definition cs_hlen (s : cst) v : cst := mkC (bars s) (heap s) (hsync s) v (hdirty s) (iterating s) (popped s) (fifo s) (queue s) (pop_prio s) (id_count s) (pop_mode s) (auto_mode s) (ph s) (cwbuf s) (delayed s) (pend_writes s) (pend_fix s) (outframes s) (cancelled s) (done_seen s) (ended s) (errored s) (cycle_pops s) (cycle_flushed s) (iter_heap s) (iter_dirty s) (retired s).
-Definition cs_hdirty (s : cst) v : cst := mkC (bars s) (heap s) (hsync s) (hlen s) v (iterating s) (popped s) (fifo s) (queue s) (pop_prio s) (id_count s) (pop_mode s) (auto_mode s) (ph s) (cwbuf s) (delayed s) (pend_writes s) (pend_fix s) (outframes s) (cancelled s) (done_seen s) (ended s) (errored s) (cycle_pops s) (cycle_flushed s) (iter_heap s) (iter_dirty s) (retired s).
-Definition cs_iterating (s : cst) v : cst := mkC (bars s) (heap s) (hsync s) (hlen s) (hdirty s) v (popped s) (fifo s) (queue s) (pop_prio s) (id_count s) (pop_mode s) (auto_mode s) (ph s) (cwbuf s) (delayed s) (pend_writes s) (pend_fix s) (outframes s) (cancelled s) (done_seen s) (ended s) (errored s) (cycle_pops s) (cycle_flushed s) (iter_heap s) (iter_dirty s) (retired s).
-Definition cs_popped (s : cst) v : cst := mkC (bars s) (heap s) (hsync s) (hlen s) (hdirty s) (iterating s) v (fifo s) (queue s) (pop_prio s) (id_count s) (pop_mode s) (auto_mode s) (ph s) (cwbuf s) (delayed s) (pend_writes s) (pend_fix s) (outframes s) (cancelled s) (done_seen s) (ended s) (errored s) (cycle_pops s) (cycle_flushed s) (iter_heap s) (iter_dirty s) (retired s).
-Definition cs_fifo (s : cst) v : cst := mkC (bars s) (heap s) (hsync s) (hlen s) (hdirty s) (iterating s) (popped s) v (queue s) (pop_prio s) (id_count s) (pop_mode s) (auto_mode s) (ph s) (cwbuf s) (delayed s) (pend_writes s) (pend_fix s) (outframes s) (cancelled s) (done_seen s) (ended s) (errored s) (cycle_pops s) (cycle_flushed s) (iter_heap s) (iter_dirty s) (retired s).
-Definition cs_queue (s : cst) v : cst := mkC (bars s) (heap s) (hsync s) (hlen s) (hdirty s) (iterating s) (popped s) (fifo s) v (pop_prio s) (id_count s) (pop_mode s) (auto_mode s) (ph s) (cwbuf s) (delayed s) (pend_writes s) (pend_fix s) (outframes s) (cancelled s) (done_seen s) (ended s) (errored s) (cycle_pops s) (cycle_flushed s) (iter_heap s) (iter_dirty s) (retired s).
-Definition cs_pop_prio (s : cst) v : cst := mkC (bars s) (heap s) (hsync s) (hlen s) (hdirty s) (iterating s) (popped s) (fifo s) (queue s) v (id_count s) (pop_mode s) (auto_mode s) (ph s) (cwbuf s) (delayed s) (pend_writes s) (pend_fix s) (outframes s) (cancelled s) (done_seen s) (ended s) (errored s) (cycle_pops s) (cycle_flushed s) (iter_heap s) (iter_dirty s) (retired s).
-Definition cs_id_count (s : cst) v : cst := mkC (bars s) (heap s) (hsync s) (hlen s) (hdirty s) (iterating s) (popped s) (fifo s) (queue s) (pop_prio s) v (pop_mode s) (auto_mode s) (ph s) (cwbuf s) (delayed s) (pend_writes s) (pend_fix s) (outframes s) (cancelled s) (done_seen s) (ended s) (errored s) (cycle_pops s) (cycle_flushed s) (iter_heap s) (iter_dirty s) (retired s).
-Definition cs_pop_mode (s : cst) v : cst := mkC (bars s) (heap s) (hsync s) (hlen s) (hdirty s) (iterating s) (popped s) (fifo s) (queue s) (pop_prio s) (id_count s) v (auto_mode s) (ph s) (cwbuf s) (delayed s) (pend_writes s) (pend_fix s) (outframes s) (cancelled s) (done_seen s) (ended s) (errored s) (cycle_pops s) (cycle_flushed s) (iter_heap s) (iter_dirty s) (retired s).
-Definition cs_auto_mode (s : cst) v : cst := mkC (bars s) (heap s) (hsync s) (hlen s) (hdirty s) (iterating s) (popped s) (fifo s) (queue s) (pop_prio s) (id_count s) (pop_mode s) v (ph s) (cwbuf s) (delayed s) (pend_writes s) (pend_fix s) (outframes s) (cancelled s) (done_seen s) (ended s) (errored s) (cycle_pops s) (cycle_flushed s) (iter_heap s) (iter_dirty s) (retired s).
-Definition cs_ph (s : cst) v : cst := mkC (bars s) (heap s) (hsync s) (hlen s) (hdirty s) (iterating s) (popped s) (fifo s) (queue s) (pop_prio s) (id_count s) (pop_mode s) (auto_mode s) v (cwbuf s) (delayed s) (pend_writes s) (pend_fix s) (outframes s) (cancelled s) (done_seen s) (ended s) (errored s) (cycle_pops s) (cycle_flushed s) (iter_heap s) (iter_dirty s) (retired s).
-Definition cs_cwbuf (s : cst) v : cst := mkC (bars s) (heap s) (hsync s) (hlen s) (hdirty s) (iterating s) (popped s) (fifo s) (queue s) (pop_prio s) (id_count s) (pop_mode s) (auto_mode s) (ph s) v (delayed s) (pend_writes s) (pend_fix s) (outframes s) (cancelled s) (done_seen s) (ended s) (errored s) (cycle_pops s) (cycle_flushed s) (iter_heap s) (iter_dirty s) (retired s).
-Definition cs_delayed (s : cst) v : cst := mkC (bars s) (heap s) (hsync s) (hlen s) (hdirty s) (iterating s) (popped s) (fifo s) (queue s) (pop_prio s) (id_count s) (pop_mode s) (auto_mode s) (ph s) (cwbuf s) v (pend_writes s) (pend_fix s) (outframes s) (cancelled s) (done_seen s) (ended s) (errored s) (cycle_pops s) (cycle_flushed s) (iter_heap s) (iter_dirty s) (retired s).
-Definition cs_pend_writes (s : cst) v : cst := mkC (bars s) (heap s) (hsync s) (hlen s) (hdirty s) (iterating s) (popped s) (fifo s) (queue s) (pop_prio s) (id_count s) (pop_mode s) (auto_mode s) (ph s) (cwbuf s) (delayed s) v (pend_fix s) (outframes s) (cancelled s) (done_seen s) (ended s) (errored s) (cycle_pops s) (cycle_flushed s) (iter_heap s) (iter_dirty s) (retired s).
-Definition cs_pend_fix (s : cst) v : cst := mkC (bars s) (heap s) (hsync s) (hlen s) (hdirty s) (iterating s) (popped s) (fifo s) (queue s) (pop_prio s) (id_count s) (pop_mode s) (auto_mode s) (ph s) (cwbuf s) (delayed s) (pend_writes s) v (outframes s) (cancelled s) (done_seen s) (ended s) (errored s) (cycle_pops s) (cycle_flushed s) (iter_heap s) (iter_dirty s) (retired s).
-Definition cs_outframes (s : cst) v : cst := mkC (bars s) (heap s) (hsync s) (hlen s) (hdirty s) (iterating s) (popped s) (fifo s) (queue s) (pop_prio s) (id_count s) (pop_mode s) (auto_mode s) (ph s) (cwbuf s) (delayed s) (pend_writes s) (pend_fix s) v (cancelled s) (done_seen s) (ended s) (errored s) (cycle_pops s) (cycle_flushed s) (iter_heap s) (iter_dirty s) (retired s).
-Definition cs_cancelled (s : cst) v : cst := mkC (bars s) (heap s) (hsync s) (hlen s) (hdirty s) (iterating s) (popped s) (fifo s) (queue s) (pop_prio s) (id_count s) (pop_mode s) (auto_mode s) (ph s) (cwbuf s) (delayed s) (pend_writes s) (pend_fix s) (outframes s) v (done_seen s) (ended s) (errored s) (cycle_pops s) (cycle_flushed s) (iter_heap s) (iter_dirty s) (retired s).
-Definition cs_done_seen (s : cst) v : cst := mkC (bars s) (heap s) (hsync s) (hlen s) (hdirty s) (iterating s) (popped s) (fifo s) (queue s) (pop_prio s) (id_count s) (pop_mode s) (auto_mode s) (ph s) (cwbuf s) (delayed s) (pend_writes s) (pend_fix s) (outframes s) (cancelled s) v (ended s) (errored s) (cycle_pops s) (cycle_flushed s) (iter_heap s) (iter_dirty s) (retired s).
-Definition cs_ended (s : cst) v : cst := mkC (bars s) (heap s) (hsync s) (hlen s) (hdirty s) (iterating s) (popped s) (fifo s) (queue s) (pop_prio s) (id_count s) (pop_mode s) (auto_mode s) (ph s) (cwbuf s) (delayed s) (pend_writes s) (pend_fix s) (outframes s) (cancelled s) (done_seen s) v (errored s) (cycle_pops s) (cycle_flushed s) (iter_heap s) (iter_dirty s) (retired s).
-Definition cs_errored (s : cst) v : cst := mkC (bars s) (heap s) (hsync s) (hlen s) (hdirty s) (iterating s) (popped s) (fifo s) (queue s) (pop_prio s) (id_count s) (pop_mode s) (auto_mode s) (ph s) (cwbuf s) (delayed s) (pend_writes s) (pend_fix s) (outframes s) (cancelled s) (done_seen s) (ended s) v (cycle_pops s) (cycle_flushed s) (iter_heap s) (iter_dirty s) (retired s).
-Definition cs_cycle_pops (s : cst) v : cst := mkC (bars s) (heap s) (hsync s) (hlen s) (hdirty s) (iterating s) (popped s) (fifo s) (queue s) (pop_prio s) (id_count s) (pop_mode s) (auto_mode s) (ph s) (cwbuf s) (delayed s) (pend_writes s) (pend_fix s) (outframes s) (cancelled s) (done_seen s) (ended s) (errored s) v (cycle_flushed s) (iter_heap s) (iter_dirty s) (retired s).
-Definition cs_cycle_flushed (s : cst) v : cst := mkC (bars s) (heap s) (hsync s) (hlen s) (hdirty s) (iterating s) (popped s) (fifo s) (queue s) (pop_prio s) (id_count s) (pop_mode s) (auto_mode s) (ph s) (cwbuf s) (delayed s) (pend_writes s) (pend_fix s) (outframes s) (cancelled s) (done_seen s) (ended s) (errored s) (cycle_pops s) v (iter_heap s) (iter_dirty s) (retired s).
-Definition cs_iter_heap (s : cst) v : cst := mkC (bars s) (heap s) (hsync s) (hlen s) (hdirty s) (iterating s) (popped s) (fifo s) (queue s) (pop_prio s) (id_count s) (pop_mode s) (auto_mode s) (ph s) (cwbuf s) (delayed s) (pend_writes s) (pend_fix s) (outframes s) (cancelled s) (done_seen s) (ended s) (errored s) (cycle_pops s) (cycle_flushed s) v (iter_dirty s) (retired s).
-Definition cs_iter_dirty (s : cst) v : cst := mkC (bars s) (heap s) (hsync s) (hlen s) (hdirty s) (iterating s) (popped s) (fifo s) (queue s) (pop_prio s) (id_count s) (pop_mode s) (auto_mode s) (ph s) (cwbuf s) (delayed s) (pend_writes s) (pend_fix s) (outframes s) (cancelled s) (done_seen s) (ended s) (errored s) (cycle_pops s) (cycle_flushed s) (iter_heap s) v (retired s).
-Definition cs_retired (s : cst) v : cst := mkC (bars s) (heap s) (hsync s) (hlen s) (hdirty s) (iterating s) (popped s) (fifo s) (queue s) (pop_prio s) (id_count s) (pop_mode s) (auto_mode s) (ph s) (cwbuf s) (delayed s) (pend_writes s) (pend_fix s) (outframes s) (cancelled s) (done_seen s) (ended s) (errored s) (cycle_pops s) (cycle_flushed s) (iter_heap s) (iter_dirty s) v.
+Definition cs_bars (s : cst) v : cst := mkC v (heap s) (hsync s) (hlen s) (hdirty s) (iterating s) (popped s) (fifo s) (queue s) (pop_prio s) (id_count s) (pop_mode s) (auto_mode s) (ph s) (cwbuf s) (delayed s) (pend_writes s) (pend_fix s) (outframes s) (cancelled s) (done_seen s) (ended s) (errored s) (ct_exited s) (cycle_pops s) (cycle_flushed s) (iter_heap s) (iter_dirty s) (retired s) (wlog s) (cycle_err s).
+Definition cs_heap (s : cst) v : cst := mkC (bars s) v (hsync s) (hlen s) (hdirty s) (iterating s) (popped s) (fifo s) (queue s) (pop_prio s) (id_count s) (pop_mode s) (auto_mode s) (ph s) (cwbuf s) (delayed s) (pend_writes s) (pend_fix s) (outframes s) (cancelled s) (done_seen s) (ended s) (errored s) (ct_exited s) (cycle_pops s) (cycle_flushed s) (iter_heap s) (iter_dirty s) (retired s) (wlog s) (cycle_err s).
+Definition cs_hsync (s : cst) v : cst := mkC (bars s) (heap s) v (hlen s) (hdirty s) (iterating s) (popped s) (fifo s) (queue s) (pop_prio s) (id_count s) (pop_mode s) (auto_mode s) (ph s) (cwbuf s) (delayed s) (pend_writes s) (pend_fix s) (outframes s) (cancelled s) (done_seen s) (ended s) (errored s) (ct_exited s) (cycle_pops s) (cycle_flushed s) (iter_heap s) (iter_dirty s) (retired s) (wlog s) (cycle_err s).
+Definition cs_hlen (s : cst) v : cst := mkC (bars s) (heap s) (hsync s) v (hdirty s) (iterating s) (popped s) (fifo s) (queue s) (pop_prio s) (id_count s) (pop_mode s) (auto_mode s) (ph s) (cwbuf s) (delayed s) (pend_writes s) (pend_fix s) (outframes s) (cancelled s) (done_seen s) (ended s) (errored s) (ct_exited s) (cycle_pops s) (cycle_flushed s) (iter_heap s) (iter_dirty s) (retired s) (wlog s) (cycle_err s).
+Definition cs_hdirty (s : cst) v : cst := mkC (bars s) (heap s) (hsync s) (hlen s) v (iterating s) (popped s) (fifo s) (queue s) (pop_prio s) (id_count s) (pop_mode s) (auto_mode s) (ph s) (cwbuf s) (delayed s) (pend_writes s) (pend_fix s) (outframes s) (cancelled s) (done_seen s) (ended s) (errored s) (ct_exited s) (cycle_pops s) (cycle_flushed s) (iter_heap s) (iter_dirty s) (retired s) (wlog s) (cycle_err s).
+Definition cs_iterating (s : cst) v : cst := mkC (bars s) (heap s) (hsync s) (hlen s) (hdirty s) v (popped s) (fifo s) (queue s) (pop_prio s) (id_count s) (pop_mode s) (auto_mode s) (ph s) (cwbuf s) (delayed s) (pend_writes s) (pend_fix s) (outframes s) (cancelled s) (done_seen s) (ended s) (errored s) (ct_exited s) (cycle_pops s) (cycle_flushed s) (iter_heap s) (iter_dirty s) (retired s) (wlog s) (cycle_err s).
+Definition cs_popped (s : cst) v : cst := mkC (bars s) (heap s) (hsync s) (hlen s) (hdirty s) (iterating s) v (fifo s) (queue s) (pop_prio s) (id_count s) (pop_mode s) (auto_mode s) (ph s) (cwbuf s) (delayed s) (pend_writes s) (pend_fix s) (outframes s) (cancelled s) (done_seen s) (ended s) (errored s) (ct_exited s) (cycle_pops s) (cycle_flushed s) (iter_heap s) (iter_dirty s) (retired s) (wlog s) (cycle_err s).
+Definition cs_fifo (s : cst) v : cst := mkC (bars s) (heap s) (hsync s) (hlen s) (hdirty s) (iterating s) (popped s) v (queue s) (pop_prio s) (id_count s) (pop_mode s) (auto_mode s) (ph s) (cwbuf s) (delayed s) (pend_writes s) (pend_fix s) (outframes s) (cancelled s) (done_seen s) (ended s) (errored s) (ct_exited s) (cycle_pops s) (cycle_flushed s) (iter_heap s) (iter_dirty s) (retired s) (wlog s) (cycle_err s).
+Definition cs_queue (s : cst) v : cst := mkC (bars s) (heap s) (hsync s) (hlen s) (hdirty s) (iterating s) (popped s) (fifo s) v (pop_prio s) (id_count s) (pop_mode s) (auto_mode s) (ph s) (cwbuf s) (delayed s) (pend_writes s) (pend_fix s) (outframes s) (cancelled s) (done_seen s) (ended s) (errored s) (ct_exited s) (cycle_pops s) (cycle_flushed s) (iter_heap s) (iter_dirty s) (retired s) (wlog s) (cycle_err s).
+Definition cs_pop_prio (s : cst) v : cst := mkC (bars s) (heap s) (hsync s) (hlen s) (hdirty s) (iterating s) (popped s) (fifo s) (queue s) v (id_count s) (pop_mode s) (auto_mode s) (ph s) (cwbuf s) (delayed s) (pend_writes s) (pend_fix s) (outframes s) (cancelled s) (done_seen s) (ended s) (errored s) (ct_exited s) (cycle_pops s) (cycle_flushed s) (iter_heap s) (iter_dirty s) (retired s) (wlog s) (cycle_err s).
+Definition cs_id_count (s : cst) v : cst := mkC (bars s) (heap s) (hsync s) (hlen s) (hdirty s) (iterating s) (popped s) (fifo s) (queue s) (pop_prio s) v (pop_mode s) (auto_mode s) (ph s) (cwbuf s) (delayed s) (pend_writes s) (pend_fix s) (outframes s) (cancelled s) (done_seen s) (ended s) (errored s) (ct_exited s) (cycle_pops s) (cycle_flushed s) (iter_heap s) (iter_dirty s) (retired s) (wlog s) (cycle_err s).
+Definition cs_pop_mode (s : cst) v : cst := mkC (bars s) (heap s) (hsync s) (hlen s) (hdirty s) (iterating s) (popped s) (fifo s) (queue s) (pop_prio s) (id_count s) v (auto_mode s) (ph s) (cwbuf s) (delayed s) (pend_writes s) (pend_fix s) (outframes s) (cancelled s) (done_seen s) (ended s) (errored s) (ct_exited s) (cycle_pops s) (cycle_flushed s) (iter_heap s) (iter_dirty s) (retired s) (wlog s) (cycle_err s).
+Definition cs_auto_mode (s : cst) v : cst := mkC (bars s) (heap s) (hsync s) (hlen s) (hdirty s) (iterating s) (popped s) (fifo s) (queue s) (pop_prio s) (id_count s) (pop_mode s) v (ph s) (cwbuf s) (delayed s) (pend_writes s) (pend_fix s) (outframes s) (cancelled s) (done_seen s) (ended s) (errored s) (ct_exited s) (cycle_pops s) (cycle_flushed s) (iter_heap s) (iter_dirty s) (retired s) (wlog s) (cycle_err s).
+Definition cs_ph (s : cst) v : cst := mkC (bars s) (heap s) (hsync s) (hlen s) (hdirty s) (iterating s) (popped s) (fifo s) (queue s) (pop_prio s) (id_count s) (pop_mode s) (auto_mode s) v (cwbuf s) (delayed s) (pend_writes s) (pend_fix s) (outframes s) (cancelled s) (done_seen s) (ended s) (errored s) (ct_exited s) (cycle_pops s) (cycle_flushed s) (iter_heap s) (iter_dirty s) (retired s) (wlog s) (cycle_err s).
+Definition cs_cwbuf (s : cst) v : cst := mkC (bars s) (heap s) (hsync s) (hlen s) (hdirty s) (iterating s) (popped s) (fifo s) (queue s) (pop_prio s) (id_count s) (pop_mode s) (auto_mode s) (ph s) v (delayed s) (pend_writes s) (pend_fix s) (outframes s) (cancelled s) (done_seen s) (ended s) (errored s) (ct_exited s) (cycle_pops s) (cycle_flushed s) (iter_heap s) (iter_dirty s) (retired s) (wlog s) (cycle_err s).
+Definition cs_delayed (s : cst) v : cst := mkC (bars s) (heap s) (hsync s) (hlen s) (hdirty s) (iterating s) (popped s) (fifo s) (queue s) (pop_prio s) (id_count s) (pop_mode s) (auto_mode s) (ph s) (cwbuf s) v (pend_writes s) (pend_fix s) (outframes s) (cancelled s) (done_seen s) (ended s) (errored s) (ct_exited s) (cycle_pops s) (cycle_flushed s) (iter_heap s) (iter_dirty s) (retired s) (wlog s) (cycle_err s).
+Definition cs_pend_writes (s : cst) v : cst := mkC (bars s) (heap s) (hsync s) (hlen s) (hdirty s) (iterating s) (popped s) (fifo s) (queue s) (pop_prio s) (id_count s) (pop_mode s) (auto_mode s) (ph s) (cwbuf s) (delayed s) v (pend_fix s) (outframes s) (cancelled s) (done_seen s) (ended s) (errored s) (ct_exited s) (cycle_pops s) (cycle_flushed s) (iter_heap s) (iter_dirty s) (retired s) (wlog s) (cycle_err s).
+Definition cs_pend_fix (s : cst) v : cst := mkC (bars s) (heap s) (hsync s) (hlen s) (hdirty s) (iterating s) (popped s) (fifo s) (queue s) (pop_prio s) (id_count s) (pop_mode s) (auto_mode s) (ph s) (cwbuf s) (delayed s) (pend_writes s) v (outframes s) (cancelled s) (done_seen s) (ended s) (errored s) (ct_exited s) (cycle_pops s) (cycle_flushed s) (iter_heap s) (iter_dirty s) (retired s) (wlog s) (cycle_err s).
+Definition cs_outframes (s : cst) v : cst := mkC (bars s) (heap s) (hsync s) (hlen s) (hdirty s) (iterating s) (popped s) (fifo s) (queue s) (pop_prio s) (id_count s) (pop_mode s) (auto_mode s) (ph s) (cwbuf s) (delayed s) (pend_writes s) (pend_fix s) v (cancelled s) (done_seen s) (ended s) (errored s) (ct_exited s) (cycle_pops s) (cycle_flushed s) (iter_heap s) (iter_dirty s) (retired s) (wlog s) (cycle_err s).
+Definition cs_cancelled (s : cst) v : cst := mkC (bars s) (heap s) (hsync s) (hlen s) (hdirty s) (iterating s) (popped s) (fifo s) (queue s) (pop_prio s) (id_count s) (pop_mode s) (auto_mode s) (ph s) (cwbuf s) (delayed s) (pend_writes s) (pend_fix s) (outframes s) v (done_seen s) (ended s) (errored s) (ct_exited s) (cycle_pops s) (cycle_flushed s) (iter_heap s) (iter_dirty s) (retired s) (wlog s) (cycle_err s).
+Definition cs_done_seen (s : cst) v : cst := mkC (bars s) (heap s) (hsync s) (hlen s) (hdirty s) (iterating s) (popped s) (fifo s) (queue s) (pop_prio s) (id_count s) (pop_mode s) (auto_mode s) (ph s) (cwbuf s) (delayed s) (pend_writes s) (pend_fix s) (outframes s) (cancelled s) v (ended s) (errored s) (ct_exited s) (cycle_pops s) (cycle_flushed s) (iter_heap s) (iter_dirty s) (retired s) (wlog s) (cycle_err s).
+Definition cs_ended (s : cst) v : cst := mkC (bars s) (heap s) (hsync s) (hlen s) (hdirty s) (iterating s) (popped s) (fifo s) (queue s) (pop_prio s) (id_count s) (pop_mode s) (auto_mode s) (ph s) (cwbuf s) (delayed s) (pend_writes s) (pend_fix s) (outframes s) (cancelled s) (done_seen s) v (errored s) (ct_exited s) (cycle_pops s) (cycle_flushed s) (iter_heap s) (iter_dirty s) (retired s) (wlog s) (cycle_err s).
+Definition cs_errored (s : cst) v : cst := mkC (bars s) (heap s) (hsync s) (hlen s) (hdirty s) (iterating s) (popped s) (fifo s) (queue s) (pop_prio s) (id_count s) (pop_mode s) (auto_mode s) (ph s) (cwbuf s) (delayed s) (pend_writes s) (pend_fix s) (outframes s) (cancelled s) (done_seen s) (ended s) v (ct_exited s) (cycle_pops s) (cycle_flushed s) (iter_heap s) (iter_dirty s) (retired s) (wlog s) (cycle_err s).
+Definition cs_ct_exited (s : cst) v : cst := mkC (bars s) (heap s) (hsync s) (hlen s) (hdirty s) (iterating s) (popped s) (fifo s) (queue s) (pop_prio s) (id_count s) (pop_mode s) (auto_mode s) (ph s) (cwbuf s) (delayed s) (pend_writes s) (pend_fix s) (outframes s) (cancelled s) (done_seen s) (ended s) (errored s) v (cycle_pops s) (cycle_flushed s) (iter_heap s) (iter_dirty s) (retired s) (wlog s) (cycle_err s).
+Definition cs_cycle_pops (s : cst) v : cst := mkC (bars s) (heap s) (hsync s) (hlen s) (hdirty s) (iterating s) (popped s) (fifo s) (queue s) (pop_prio s) (id_count s) (pop_mode s) (auto_mode s) (ph s) (cwbuf s) (delayed s) (pend_writes s) (pend_fix s) (outframes s) (cancelled s) (done_seen s) (ended s) (errored s) (ct_exited s) v (cycle_flushed s) (iter_heap s) (iter_dirty s) (retired s) (wlog s) (cycle_err s).
+Definition cs_cycle_flushed (s : cst) v : cst := mkC (bars s) (heap s) (hsync s) (hlen s) (hdirty s) (iterating s) (popped s) (fifo s) (queue s) (pop_prio s) (id_count s) (pop_mode s) (auto_mode s) (ph s) (cwbuf s) (delayed s) (pend_writes s) (pend_fix s) (outframes s) (cancelled s) (done_seen s) (ended s) (errored s) (ct_exited s) (cycle_pops s) v (iter_heap s) (iter_dirty s) (retired s) (wlog s) (cycle_err s).
+Definition cs_iter_heap (s : cst) v : cst := mkC (bars s) (heap s) (hsync s) (hlen s) (hdirty s) (iterating s) (popped s) (fifo s) (queue s) (pop_prio s) (id_count s) (pop_mode s) (auto_mode s) (ph s) (cwbuf s) (delayed s) (pend_writes s) (pend_fix s) (outframes s) (cancelled s) (done_seen s) (ended s) (errored s) (ct_exited s) (cycle_pops s) (cycle_flushed s) v (iter_dirty s) (retired s) (wlog s) (cycle_err s).
+Definition cs_iter_dirty (s : cst) v : cst := mkC (bars s) (heap s) (hsync s) (hlen s) (hdirty s) (iterating s) (popped s) (fifo s) (queue s) (pop_prio s) (id_count s) (pop_mode s) (auto_mode s) (ph s) (cwbuf s) (delayed s) (pend_writes s) (pend_fix s) (outframes s) (cancelled s) (done_seen s) (ended s) (errored s) (ct_exited s) (cycle_pops s) (cycle_flushed s) (iter_heap s) v (retired s) (wlog s) (cycle_err s).
+Definition cs_retired (s : cst) v : cst := mkC (bars s) (heap s) (hsync s) (hlen s) (hdirty s) (iterating s) (popped s) (fifo s) (queue s) (pop_prio s) (id_count s) (pop_mode s) (auto_mode s) (ph s) (cwbuf s) (delayed s) (pend_writes s) (pend_fix s) (outframes s) (cancelled s) (done_seen s) (ended s) (errored s) (ct_exited s) (cycle_pops s) (cycle_flushed s) (iter_heap s) (iter_dirty s) v (wlog s) (cycle_err s).
+Definition cs_wlog (s : cst) v : cst := mkC (bars s) (heap s) (hsync s) (hlen s) (hdirty s) (iterating s) (popped s) (fifo s) (queue s) (pop_prio s) (id_count s) (pop_mode s) (auto_mode s) (ph s) (cwbuf s) (delayed s) (pend_writes s) (pend_fix s) (outframes s) (cancelled s) (done_seen s) (ended s) (errored s) (ct_exited s) (cycle_pops s) (cycle_flushed s) (iter_heap s) (iter_dirty s) (retired s) v (cycle_err s).
+Definition cs_cycle_err (s : cst) v : cst := mkC (bars s) (heap s) (hsync s) (hlen s) (hdirty s) (iterating s) (popped s) (fifo s) (queue s) (pop_prio s) (id_count s) (pop_mode s) (auto_mode s) (ph s) (cwbuf s) (delayed s) (pend_writes s) (pend_fix s) (outframes s) (cancelled s) (done_seen s) (ended s) (errored s) (ct_exited s) (cycle_pops s) (cycle_flushed s) (iter_heap s) (iter_dirty s) (retired s) (wlog s) v.
 
 Definition init_cst (popm autom delay : bool) : cst :=
-  mkC [] [] false 0 false false [] [] [] (-2147483648) 0 popm autom Idle [] delay [] [] [] false false false false
-      [] [] [] false [].
+  mkC [] [] false 0 false false [] [] [] (-2147483648) 0 popm autom Idle [] delay [] [] [] false false false false false
+      [] [] [] false [] [] false.
 
 Definition upd_bar (s : cst) (b : Z) (r : brec) : cst := cs_bars s (update b r (bars s)).
 
@@ -157,7 +164,8 @@ Inductive ev :=
 | CT_DELAYEND
 | CT_RENDERBEGIN
 | CT_RENDERSIZE (width height : Z)
-| CT_FLUSHBAR (b : Z) (shutdown nrows : Z) (rm nopop : bool)
+| CT_FLUSHBAR (b : Z) (shutdown nrows : Z) (rm nopop : bool) (err : bool)
+| CT_RENDERERR                               (* render returned an error to serve *)
 | CT_FRAME (nrows popcount : Z)
 | OUT (items : list item)                  (* one Write call on the output *)
 | CT_DONE
@@ -174,6 +182,7 @@ Inductive ev :=
 | BAR_OP (b cur total refill : Z) (trig aborted rm : bool) (shutdown : Z)
 | BAR_RENDER (b cur total refill : Z) (aborted completed : bool) (shutdown : Z)
 | BAR_EXIT (b cur total : Z) (aborted : bool)
+| BAR_DRAWERR (b : Z)                          (* the filler failed: the render closure returns before counting the frame *)
 (* values returned to the client *)
 | RET_GET (b cur : Z) (comp ab : bool)         (* Current / Completed / Aborted read after an operation *)
 | FINAL (b cur : Z) (comp ab running : bool)   (* read after Progress.Wait returned *)
@@ -276,7 +285,8 @@ Fixpoint replace_last_op (l : list qreq) (by_ : list qreq) : option (list qreq) 
   | x :: r => match replace_last_op r by_ with Some r' => Some (x :: r') | None => None end
   end.
 
-Definition is_idle (s : cst) : bool := match ph s with Idle => true | _ => false end.
+Definition is_idle (s : cst) : bool := match ph s with Idle => negb (ct_exited s) | _ => false end.
+Definition rendering (s : cst) : bool := match ph s with Rendering _ _ _ _ _ _ => true | _ => false end.
 Definition nil_b {A} (l : list A) : bool := match l with [] => true | _ => false end.
 
 Definition step (s : cst) (e : ev) : option cst :=
@@ -320,26 +330,43 @@ Definition step (s : cst) (e : ev) : option cst :=
       if negb (is_idle s) then None else
       match pend_writes s with
       | (w, seq, lines) :: rest =>
-          Some (cs_pend_writes (cs_cwbuf s (cwbuf s ++ text_items w seq 0 (Z.to_nat lines))) rest)
+          let txt := text_items w seq 0 (Z.to_nat lines) in
+          let s1 := cs_pend_writes (cs_cwbuf s (cwbuf s ++ txt)) rest in
+          Some (if delayed s then s1 else cs_wlog s1 (wlog s ++ txt))
       | [] => Some s     (* the harness's barrier: an empty write *)
       end
   | CT_DELAYEND => if delayed s && is_idle s then Some (cs_delayed (cs_cwbuf s []) false) else None
   | CT_RENDERBEGIN =>
       if is_idle s && negb (errored s)
-      then Some (cs_fifo (cs_ph s (Rendering 0 0 [] 0 0 [])) (fifo s ++ [QSync; QIter]))
+      then Some (cs_cycle_err (cs_fifo (cs_ph s (Rendering 0 0 [] 0 0 [])) (fifo s ++ [QSync; QIter])) false)
       else None
   | CT_RENDERSIZE wd ht =>
       match ph s with
       | Rendering _ _ [] 0 0 [] => Some (cs_ph s (Rendering wd ht [] 0 0 []))
       | _ => None
       end
-  | CT_FLUSHBAR b sh nrows rmf np =>
+  | CT_FLUSHBAR b sh nrows rmf np err =>
       match ph s, lookup b (bars s) with
       | Rendering wd ht rows n pc pushes, Some r =>
         match br_frame r with
         | Some fi =>
           (* flush receives bars in pop order: b is the oldest popped bar not yet flushed *)
           if negb (match popped s with p0 :: _ => b =? p0 | [] => false end) then None else
+          let over := nil_b (tl (popped s)) && negb (iterating s) && nil_b (fifo s) in   (* the ordered iteration is over *)
+          let leave (s : cst) (pushes' : list (Z * bool)) :=
+            (* once the iteration is over flush returns the error and its pushes are sent *)
+            if over then cs_ph (cs_fifo s (fifo s ++ map (fun p => QPush (fst p) (snd p)) pushes')) Failed
+            else cs_ph s (Rendering wd ht rows n pc pushes') in
+          if cycle_err s then
+            (* after a frame error the cycle is finished without drawing: the bar goes back untouched *)
+            Some (leave (upd_bar (cs_cycle_flushed (cs_popped s (tl (popped s))) (cycle_flushed s ++ [b])) b (set_frame r None))
+                        (pushes ++ [(b, false)]))
+          else if err then
+            (* the failing bar is cancelled and not pushed back *)
+            let rc := set_st (set_frame r None) (set_cancelled (br_st r)) in
+            Some (cs_cycle_err (cs_retired (leave (upd_bar (cs_cycle_flushed (cs_popped s (tl (popped s))) (cycle_flushed s ++ [b])) b rc)
+                        pushes) (b :: retired s)) true)
+          else
           if negb ((fi_shutdown fi =? sh) && Bool.eqb (fi_rm fi) rmf && Bool.eqb (fi_nopop fi) np &&
                    (nrows =? 1 + br_xrows r)) then None else
           let '(taken, used) := take_rows (List.rev (bar_rows b r fi)) n ht in
@@ -371,11 +398,18 @@ Definition step (s : cst) (e : ev) : option cst :=
         end
       | _, _ => None
       end
+  | CT_RENDERERR =>
+      match ph s with
+      | Idle =>   (* the output writer failed while the frame was being written *)
+          if ct_exited s then None else Some (cs_cancelled (cs_errored s true) true)
+      | Failed => Some (cs_cancelled (cs_errored (cs_ph s Idle) true) true)
+      | Rendering _ _ _ _ _ _ => None
+      end
   | CT_FRAME nrows pcnt =>
       match ph s with
       | Rendering wd ht rows n pc pushes =>
           (* the ordered iteration is over: the heap manager has taken everything sent so far *)
-          if (n =? nrows) && (pc =? pcnt) && nil_b (popped s) && negb (iterating s) && nil_b (fifo s) then
+          if (n =? nrows) && (pc =? pcnt) && nil_b (popped s) && negb (iterating s) && nil_b (fifo s) && negb (cycle_err s) then
             (* rows were collected bottom-up and are written top first; then Flush(rows - popCount) *)
             let buf := cwbuf s ++ List.rev rows in
             let next := if 0 <? n - pc then [ICuu (n - pc)] else [] in
@@ -396,7 +430,7 @@ Definition step (s : cst) (e : ev) : option cst :=
       | [] => None
       end
   | CT_DONE => if is_idle s then Some (cs_done_seen s true) else None
-  | CT_EXIT => if done_seen s && is_idle s then Some s else None
+  | CT_EXIT => if done_seen s && is_idle s then Some (cs_ct_exited s true) else None
   (* ---- heap manager goroutine: one request at a time ---- *)
   | HM_PUSH b sy hl cs cl =>
       if negb (iterating s) && (hl =? Z.of_nat (length (heap s))) && Bool.eqb cs (hsync s) && (cl =? hlen s)
@@ -447,7 +481,7 @@ Definition step (s : cst) (e : ev) : option cst :=
       if negb (iterating s) && (hl =? Z.of_nat (length (heap s))) && Bool.eqb cs (hsync s) && (cl =? hlen s)
          && done_seen s && nil_b (fifo s) then Some s else None
   | HM_END hl =>
-      if negb (iterating s) && (hl =? Z.of_nat (length (heap s))) && done_seen s && nil_b (fifo s)
+      if negb (iterating s) && negb (ended s) && (hl =? Z.of_nat (length (heap s))) && done_seen s && nil_b (fifo s)
       then Some (cs_ended s true) else None
   | HM_POP b p =>
       match lookup b (bars s) with
@@ -470,6 +504,22 @@ Definition step (s : cst) (e : ev) : option cst :=
   | BAR_RENDER b cur tot ref ab comp sh =>
       match lookup b (bars s) with
       | Some r => match bar_render r cur tot ref ab comp sh with Some r' => Some (upd_bar s b r') | None => None end
+      | None => None
+      end
+  | BAR_DRAWERR b =>
+      match lookup b (bars s) with
+      | Some r =>
+          match br_frame r with
+          | Some fi =>
+              let st := br_st r in
+              (* bar.go render: on a draw error the closure returns before "shutdown++" *)
+              let st' := if terminal st then
+                           mkB (total st) (current st) (refill st) (trig st) (aborted st) (rm st) (nopop st) (auto st)
+                               (shutdown st - 1) (BarState.cancelled st) (exited st) (early st)
+                         else st in
+              Some (upd_bar s b (set_frame (set_st r st') (Some (mkFI 0 false false (fi_cur fi) (fi_total fi) (fi_completed fi) (fi_aborted fi)))))
+          | None => None
+          end
       | None => None
       end
   | BAR_EXIT b cur tot ab =>
